@@ -39,6 +39,15 @@ pub fn cap_any() -> BoxedStrategy<u8> {
     (0u8..=9u8).boxed()
 }
 
+/// for sequential histories, which are long enough to fill and wrap larger rings (16..128 slots)
+pub fn cap_wide() -> BoxedStrategy<u8> {
+    prop_oneof![
+        6 => 0u8..=9u8,
+        1 => 10u8..=70u8,
+    ]
+    .boxed()
+}
+
 pub fn wait_any() -> BoxedStrategy<WaitKind> {
     prop_oneof![
         3 => Just(WaitKind::Busy),
